@@ -24,3 +24,18 @@ Example C01_ex :
   = [123; 34; 97; 34; 58; 49; 44; 34; 99; 34; 58; 91; 93; 125] /\
   marshal (JObj [([98], true, JLeaf TNull)]) = [123; 125].
 Proof. vm_compute. split; reflexivity. Qed.
+
+(* ---- code that exists in several copies (Gen/Twins.v, read from the source on every run) ---- *)
+From Coq Require Import String.
+From GJ Require Import Gen.Twins.
+(* the helpers through which the four interpreters read a value out of its slot (widths, pointers, strings, slices)
+   have one text in all four util.go: what a value is does not depend on the variant that encodes it *)
+Theorem C01_interpreters_read_values_alike :
+  util_helpers_identical = ["load"; "loadNPtr"; "ptrToBool"; "ptrToBytes"; "ptrToFloat32"; "ptrToFloat64"; "ptrToInterface"; "ptrToNPtr"; "ptrToNumber"; "ptrToPtr"; "ptrToSlice"; "ptrToString"; "ptrToUint64"; "ptrToUnsafePtr"; "store"]%string.
+Proof. reflexivity. Qed.
+(* the two tables that send a value opcode to its struct-head / struct-field opcode answer, for every case Op<X>,
+   OpStructHead<X> / OpStructField<X> (and ...String with the option); the six pointer-to-container cases rewrite the
+   opcode first *)
+Theorem C01_head_and_field_tables_agree :
+  opcode_tables_irregular = ["ToHeaderType OpMapPtr: { c.Op = OpMap return OpStructHeadMapPtr }"; "ToHeaderType OpArrayPtr: { c.Op = OpArray return OpStructHeadArrayPtr }"; "ToHeaderType OpSlicePtr: { c.Op = OpSlice return OpStructHeadSlicePtr }"; "ToFieldType OpMapPtr: { c.Op = OpMap return OpStructFieldMapPtr }"; "ToFieldType OpArrayPtr: { c.Op = OpArray return OpStructFieldArrayPtr }"; "ToFieldType OpSlicePtr: { c.Op = OpSlice return OpStructFieldSlicePtr }"]%string /\ opcode_tables_cases = 52%nat.
+Proof. split; reflexivity. Qed.
